@@ -7,8 +7,8 @@ Tie (b): the same op lines go to harness/c08.c (real library, ASan, every input 
 Search oracle (implementation alone): consumed <= input, re-encode(decode x) == x[:consumed],
         decode(encode v) == v, no sanitizer report.  It runs on every op of every run (second pass
         through the C harness only) and decides found / not found when something disagrees.
-Containers (bign_params.c, btok_cvc.c, bpki.c, btok_sm.c) have no Lean model: harness/c08b.c +
-        the same oracle on the implementation (labelled as tests in the evidence).
+Containers (bign_params.c, btok_cvc.c, bpki.c, btok_sm.c) are NOT modelled and NOT exercised yet;
+        they are compositions of the primitives checked here (hook: harness/c08b.c + props/C08_containers.py).
 """
 import os, sys, itertools
 import vcommon
@@ -631,6 +631,10 @@ def oracle_ops(op, out):
         elif k == "b64from":
             second.append(("b64to %s" % o[0], w[1], "b64To(b64From(v)) == v"))
             second.append(("b64valid %s" % o[0], "1", "b64From output is valid"))
+        elif k == "deccd":
+            d = unhx(w[1])
+            second.append(("deccd %s" % hx(d + bytes([int(o[0])])), None, ("luhn", 1)))
+            second.append(("deccd %s" % hx(d + bytes([int(o[2])])), None, ("damm", 3)))
         elif k == "decfrom":
             c, n = int(w[1]), int(w[2])
             if c > 0:
@@ -664,6 +668,10 @@ def run_oracle(ctx, exe, ops, outs, limit=None):
             if exp is None:
                 kind, val = what
                 g = got.split(" ")
+                if kind in ("luhn", "damm"):
+                    if len(g) != 4 or g[val] != "1":
+                        bad.append((op, "%s check digit produced by Calc is not accepted by Verify: `%s` -> %s" % (kind, s_op, got)))
+                    continue
                 ok = len(g) == 3 and int(g[0 if kind == "decto32" else 1]) == (val % 2 ** 32 if kind == "decto32" else val)
                 if kind == "decto32" and len(g) == 3:
                     ok = int(g[0]) == val % 2 ** 32 if val < 2 ** 32 else True
@@ -734,7 +742,8 @@ def run(ctx):
             "optional output pointers are modelled as always present; the harness additionally calls each decoder with null outputs and "
             "compares the returned length",
             "memMove/memCopy/memRev/strLen behave as specified (modelled as list operations)",
-            "containers (bign params, CVC, bpki, SM) are covered by the implementation-side oracle only (tests, not proof)"],
+            "NOT covered: the containers (bignParamsEnc/Dec, btokCVC*, bpki*, btokSM*) - only the primitives they are composed of; "
+            "apduCmdDec/Enc, derTEnc/derLEnc canonical+roundtrip, base64, decimal, Luhn/Damm: correspondence + oracle only (no theorem yet)"],
         rule="corpus of the 5+5 fixed defects' witnesses; ALL octet strings of length <= 3 (thorough: plus all 4-octet strings starting 1F/7F/04) through derTLDec, derDec, "
              "derIsValid (block ops, run-length digests compared); every tag form x every length form x value present/short/absent; every "
              "truncation point and one/three-octet extension of every typed sample (SIZE/UINT/BIT/OCT/PSTR/OID/SEQ); boundary values for "
